@@ -238,8 +238,12 @@ class DSDLTemplateLoader(BaseLoader):
         while len(search_queue) > 0:
             current_search_type = search_queue.pop()
             try:
-                template_path = self._type_to_template_lookup_cache[current_search_type]
-                break
+                # The cache is shared by all template sets searched through this loader: only trust an entry that
+                # belongs to the set being searched now.
+                cached_path = self._type_to_template_lookup_cache[current_search_type]
+                if templates.get(current_search_type.__name__) == cached_path:
+                    template_path = cached_path
+                    break
             except KeyError:
                 pass
 
